@@ -252,6 +252,10 @@ std::string sat_problem_as_wcnf_string(const DetectorErrorModel &model, bool wei
     // Add a hard clause for any observable to be flipped
     Clause clause;
     for (size_t i = 0; i < num_observables; ++i) {
+        if (observables_flipped[i].variable == BOOL_LITERAL_FALSE) {
+            // No error touches this observable: it can never be flipped.
+            continue;
+        }
         clause.add_var(observables_flipped[i]);
     }
     instance.add_clause(clause);
